@@ -10,6 +10,7 @@
 import CB.Lemmas.C16Hex
 import CB.Lemmas.C16Boxed
 import CB.Lemmas.C16Prim
+import CB.Lemmas.C16Cover
 namespace CB.P16
 open CB CB.Encoding
 
@@ -498,6 +499,170 @@ theorem int_resize_exact {l : List Nat} (t : Nat) (h : WF l) (h1 : 1 ≤ l.lengt
 theorem int_resize_pattern {l : List Nat} (t : Nat) (h : WF l) (h1 : 1 ≤ l.length) :
     val (intResize t l) = ofInt t (toInt l) := intResize_ofInt t h h1
 
+/-! ## coverage round — serde of `Limb`, `Wrapping`, `Checked`, `ConstMontyForm`; mutable word views;
+    `From<Limb>` / `From<Odd<Uint>>`; formatting forwarded by `NonZero` / `Odd` -/
+
+/-- `Uint` deserialisation (binary form) on ANY byte string: exactly the frames `len = 8·LIMBS` (little-endian
+    `u64`) followed by at least `8·LIMBS` bytes are accepted — every wrong-length input fails — and the value is the
+    little-endian positional value of the payload -/
+theorem serde_de_exact (n : Nat) {bs : List Nat} (hb : Bytes bs) :
+    serdeDeserialize n bs =
+      if bs.length < 8 + 8 * n ∨ beVal (bs.take 8).reverse ≠ 8 * n then none
+      else some (toLimbs n (beVal ((bs.drop 8).take (8 * n)).reverse)) := by
+  rw [serdeDeserialize_spec n hb, beVal_eq, beVal_eq, List.reverse_reverse, List.reverse_reverse]
+
+/-- trailing bytes after a well-formed frame are ignored -/
+theorem serde_de_trailing {l : List Nat} (h : WF l) (hn : 8 * l.length < B) (tail : List Nat) :
+    serdeDeserialize l.length (serdeSerialize l ++ tail) = some l := serdeDeserialize_append h hn tail
+
+/-- `Limb` serde: 8 little-endian bytes; decoding inverts encoding, ignores trailing bytes, and fails exactly on
+    fewer than 8 bytes -/
+theorem limb_serde_exact {w : Nat} (h : w < B) (tail : List Nat) :
+    limbSerialize w = specLeBytes 8 w ∧ limbDeserialize (limbSerialize w ++ tail) = some w := by
+  refine ⟨by rw [specLeBytes_eq]; rfl, ?_⟩
+  have hl : (limbSerialize w).length = 8 := by simp [limbSerialize, wordToLeBytes]
+  unfold limbDeserialize
+  rw [if_neg (by rw [List.length_append, hl]; omega), List.take_left' hl]
+  exact congrArg some (wordFromLe_toLe h)
+
+theorem limb_de_exact (bs : List Nat) :
+    limbDeserialize bs = if bs.length < 8 then none else some (beVal (bs.take 8).reverse) := by
+  unfold limbDeserialize wordFromLeBytes
+  rw [beVal_eq, List.reverse_reverse]
+
+/-- `Wrapping<T>` (de)serialises as `T` -/
+theorem wrapping_serde_exact {l : List Nat} (h : WF l) (hn : 8 * l.length < B) :
+    wrappingSerialize l = specLeBytes 8 (8 * l.length) ++ specLeBytes (8 * l.length) (val l) ∧
+    wrappingDeserialize l.length (wrappingSerialize l) = some l ∧
+    (∀ n bs, wrappingDeserialize n bs = serdeDeserialize n bs) :=
+  ⟨(serde_roundtrip h hn).1, (serde_roundtrip h hn).2, fun _ _ => rfl⟩
+
+/-- `Checked<T>`: the absent value is the single byte 0, a present value is the byte 1 followed by `T`'s encoding -/
+theorem checked_serde_layout {l : List Nat} (h : WF l) :
+    checkedSerialize none = [0] ∧
+    checkedSerialize (some l) = 1 :: (specLeBytes 8 (8 * l.length) ++ specLeBytes (8 * l.length) (val l)) := by
+  refine ⟨rfl, ?_⟩
+  show 1 :: serdeSerialize l = _
+  unfold serdeSerialize
+  rw [le_bytes_positional h, specLeBytes_eq, specLeBytes_eq]
+
+theorem checked_serde_roundtrip {l : List Nat} (h : WF l) (hn : 8 * l.length < B) (tail : List Nat) :
+    checkedDeserialize l.length (checkedSerialize (some l) ++ tail) = some (some l) ∧
+    (∀ n, checkedDeserialize n (checkedSerialize none ++ tail) = some none) := by
+  constructor
+  · show checkedDeserialize l.length (1 :: (serdeSerialize l ++ tail)) = _
+    unfold checkedDeserialize
+    simp only [if_neg (show (1 : Nat) ≠ 0 by decide), if_true]
+    rw [serde_de_trailing h hn tail]; rfl
+  · intro n; rfl
+
+/-- strictness: no tag byte, or a tag other than 0 / 1, is an error; a present value is produced only from tag 1
+    followed by a well-formed frame -/
+theorem checked_de_strict (n : Nat) :
+    checkedDeserialize n [] = none ∧
+    (∀ tag rest, tag ≠ 0 → tag ≠ 1 → checkedDeserialize n (tag :: rest) = none) ∧
+    (∀ bs l, checkedDeserialize n bs = some (some l) → ∃ rest, bs = 1 :: rest ∧ serdeDeserialize n rest = some l) := by
+  refine ⟨rfl, ?_, ?_⟩
+  · intro tag rest h0 h1
+    unfold checkedDeserialize
+    simp only [if_neg h0, if_neg h1]
+  · intro bs l h
+    unfold checkedDeserialize at h
+    cases bs with
+    | nil => cases h
+    | cons tag rest =>
+      simp only at h
+      by_cases h0 : tag = 0
+      · rw [if_pos h0] at h; cases h
+      · rw [if_neg h0] at h
+        by_cases h1 : tag = 1
+        · rw [if_pos h1] at h
+          subst h1
+          cases hd : serdeDeserialize n rest with
+          | none => rw [hd] at h; cases h
+          | some a =>
+            rw [hd] at h
+            simp only [Option.map_some, Option.some.injEq] at h
+            exact ⟨rest, rfl, by rw [hd, h]⟩
+        · rw [if_neg h1] at h; cases h
+
+/-- `ConstMontyForm`: the encoding is that of the Montgomery representation; a reduced representation
+    round-trips -/
+theorem cm_serde_roundtrip {a m : List Nat} (ha : WF a) (hl : a.length = m.length) (hn : 8 * a.length < B)
+    (hlt : val a < val m) :
+    cmSerialize a = specLeBytes 8 (8 * a.length) ++ specLeBytes (8 * a.length) (val a) ∧
+    cmDeserialize m (cmSerialize a) = some a := by
+  refine ⟨(serde_roundtrip ha hn).1, ?_⟩
+  unfold cmDeserialize cmSerialize
+  rw [← hl, (serde_roundtrip ha hn).2]
+  simp only [if_pos hlt]
+
+/-- … and deserialisation never yields an unreduced representation: success ⇔ the frame decodes to a value below
+    the modulus -/
+theorem cm_de_exact (m bs : List Nat) :
+    (∀ a, cmDeserialize m bs = some a ↔ (serdeDeserialize m.length bs = some a ∧ val a < val m)) ∧
+    (∀ a, serdeDeserialize m.length bs = some a → val m ≤ val a → cmDeserialize m bs = none) := by
+  unfold cmDeserialize
+  cases hd : serdeDeserialize m.length bs with
+  | none => simp
+  | some a0 =>
+    by_cases hlt : val a0 < val m
+    · simp only [if_pos hlt, Option.some.injEq]
+      refine ⟨fun a => ⟨fun h => ⟨h, h ▸ hlt⟩, fun h => h.1⟩, fun a h hge => ?_⟩
+      subst h; omega
+    · simp only [if_neg hlt, Option.some.injEq]
+      refine ⟨fun a => ⟨fun h => (by cases h), fun h => ?_⟩, fun _ _ _ => trivial⟩
+      obtain ⟨h1, h2⟩ := h
+      subst h1; exact absurd h2 hlt
+
+/-- a store through any of the mutable views (`as_words_mut`, `as_limbs_mut`, `AsMut<[Word; N]>`, `AsMut<[Limb]>`,
+    `AsMut<[Word]>`) replaces exactly limb `i`: positionally, and as a value -/
+theorem words_mut_exact {l : List Nat} (h : WF l) {i w : Nat} (hi : i < l.length) (hw : w < B) :
+    val (setWord l i w) = val l - val l / B ^ i % B * B ^ i + w * B ^ i ∧
+    WF (setWord l i w) ∧ (setWord l i w).length = l.length ∧
+    (∀ j, (setWord l i w)[j]? = if j = i then some w else l[j]?) := by
+  refine ⟨setWord_val h hi w, setWord_WF h i hw, setWord_length l i w, fun j => ?_⟩
+  unfold setWord
+  rw [List.getElem?_set]
+  by_cases hj : i = j
+  · subst hj; simp [hi]
+  · rw [if_neg hj, if_neg (fun e => hj e.symm)]
+
+/-- `Word::from(Limb)`, `WideWord::from(Limb)`: the value -/
+theorem limb_to_prim_exact (w : Nat) : limbToWord w = w ∧ limbToWide w = w := ⟨rfl, rfl⟩
+
+/-- `From<Odd<Uint<N>>>` / `From<&Odd<Uint<N>>> for BoxedUint`: the same value with `max 1 N` limbs -/
+theorem boxed_from_odd_exact (l : List Nat) :
+    val (boxedFromOdd l) = val l ∧ (boxedFromOdd l).length = max 1 l.length ∧ (l ≠ [] → boxedFromOdd l = l) := by
+  unfold boxedFromOdd
+  rw [toWords_id]
+  exact boxed_of_vec_exact l
+
+/-- the formatting traits of `NonZero<T>` / `Odd<T>` print the wrapped value: positional hex / binary text -/
+theorem wrapper_fmt_exact (upper : Bool) {l : List Nat} (h : WF l) :
+    wrapFmtHex upper false l = specHexText upper (16 * l.length) (val l) ∧
+    wrapFmtBin false l = specBinText (64 * l.length) (val l) ∧
+    wrapFmtHex upper true l = [48, 120] ++ specHexText upper (16 * l.length) (val l) ∧
+    wrapFmtBin true l = [48, 98] ++ specBinText (64 * l.length) (val l) ∧
+    (l ≠ [] → wrapBoxedFmtHex upper false l = specHexText upper (16 * l.length) (val l) ∧
+      wrapBoxedFmtBin false l = specBinText (64 * l.length) (val l)) := by
+  refine ⟨fmt_hex_positional upper h, fmt_bin_positional h, ?_, ?_, fun hne => ?_⟩
+  · show fmtHex upper true l = _
+    rw [(fmt_alternate upper l).1, fmt_hex_positional upper h]
+  · show fmtBin true l = _
+    rw [(fmt_alternate upper l).2, fmt_bin_positional h]
+  · have he : l.isEmpty = false := by cases l with
+      | nil => exact absurd rfl hne
+      | cons _ _ => rfl
+    unfold wrapBoxedFmtHex wrapBoxedFmtBin boxedFmtHex boxedFmtBin
+    simp only [he, Bool.false_eq_true, if_false]
+    exact ⟨fmt_hex_positional upper h, fmt_bin_positional h⟩
+
+/-- `Display for DecodeError`: the four documented errors print four different messages (the error kind can be
+    told from the text) -/
+theorem decode_error_text_injective : ∀ a b : DecodeError, decodeErrorText a = decodeErrorText b → a = b := by
+  intro a b; cases a <;> cases b <;> decide
+
 /-! ## non-vacuity: the hypotheses are satisfiable by concrete non-trivial inputs -/
 
 example : WF [0x8899aabbccddeeff, 0x0011223344556677] := by
@@ -516,5 +681,14 @@ example : (match boxedFromBeSlice [0, 0, 0] 16 with | .error e => e.name | .ok _
   decide +kernel
 example : (match boxedFromBeSlice [0x01, 0xff] 9 with | .error _ => [] | .ok l => l) = [0x1ff] := by decide +kernel
 example : toInt (intResize 2 [B - 2]) = -2 := by decide +kernel
+-- coverage round
+example : checkedDeserialize 1 (checkedSerialize (some [0x1122334455667788])) = some (some [0x1122334455667788]) := by
+  decide +kernel
+example : checkedDeserialize 1 (2 :: serdeSerialize [5]) = none := by decide +kernel
+example : cmDeserialize [0xffffffff00000001] (cmSerialize [0xffffffff00000000]) = some [0xffffffff00000000] ∧
+    cmDeserialize [0xffffffff00000001] (cmSerialize [0xffffffff00000001]) = none := by decide +kernel
+example : serdeDeserialize 1 [7, 0, 0, 0, 0, 0, 0, 0, 1, 2, 3, 4, 5, 6, 7] = none := by decide +kernel
+example : setWord [1, 2, 3] 1 7 = [1, 7, 3] ∧ (1 : Nat) < [1, 2, 3].length := by decide
+example : limbDeserialize (limbSerialize 0x0102030405060708 ++ [9]) = some 0x0102030405060708 := by decide +kernel
 
 end CB.P16
